@@ -1,4 +1,5 @@
 import Gv.Proofs.BagNames
+import Gv.Proofs.BagIdentical
 /-!
 # C01 — containers stay rectangular, uniquely named and index-consistent
 
@@ -18,6 +19,10 @@ histories of **any** length:
 * `add_wrong_length_rejected` — a sequence of the wrong length is rejected, state unchanged;
 * `diffWithFirst_agrees_with_row_model` / `replaceMatchChars_agrees_with_row_model` — the container-level
   `DiffWithFirst` / `ReplaceMatchChars` are the row-level models of property C04 on every rectangular alignment.
+
+* `identical_iff_same_records` / `identical_eq_identicalRows` / `identicalRows_spec` / `identical_symm` / `identical_refl` — what
+  `seqbag.Identical` (`goalign identical`) decides: on uniquely named containers, "the same (name, sequence) records in any
+  order", bytes compared as they are; `identical_not_symmetric_with_repeated_names`: the one-sided loop shows when names repeat.
 
 Helper developments: `Gv/Proofs/Bag*.lean`.
 -/
@@ -992,5 +997,51 @@ example : (stepOp (finalState (newAlign 1) demoHist6) (.replaceRe true [[78, 67]
 #guard (runOps (newAlign 1) demoHist5).map (·.2) =
   ["ok", "ok", "ok", "ok[2,1,2+3+4,0+1+5]", "ok[0,1,0+1,2]", "ok[0,0,0+1,_]"]
 #guard pairs (finalState (newAlign 1) demoHist5) = [("a", [71, 65]), ("b", [84, 99]), ("c", [71, 67])]
+
+/-! ## `Identical` (`goalign identical`) -/
+
+/-- the container-level model of `Identical` (lookup through `comp`'s name index) is the row-level one the command-line
+oracle evaluates on the parsed files — for every `comp` satisfying the representation invariant -/
+theorem identical_eq_identicalRows (a comp : Bag) (hc : Good comp) :
+    identical a comp = identicalRows (pairs a) (pairs comp) :=
+  Gv.Proofs.BagIdentical.identical_eq_rows a comp hc
+
+/-- what the loop decides, whatever the names: as many rows, and every row of the receiver is the FIRST row of its name
+in `comp`, with the same bytes -/
+theorem identicalRows_spec (a c : List (String × Seq)) :
+    identicalRows a c = true ↔ a.length = c.length ∧ ∀ r ∈ a, findRow r.1 c = some r.2 :=
+  Gv.Proofs.BagIdentical.identicalRows_iff a c
+
+private theorem pairs_fst (b : Bag) : (pairs b).map Prod.fst = b.rows.map (·.name) := by
+  simp [pairs, List.map_map, Function.comp_def]
+
+/-- **`Identical` decides "the same (name, sequence) records, in any order"** on containers whose names are pairwise
+distinct (which the container guarantees unless the caller edits names: `run_names_nodup`): the naive definition — the
+row lists are permutations of each other, sequences compared byte by byte (so case matters), nothing else looked at. -/
+theorem identical_iff_same_records (a comp : Bag) (hc : Good comp) (hna : NamesNodup a) (hnc : NamesNodup comp) :
+    identical a comp = true ↔ (pairs a).Perm (pairs comp) := by
+  rw [identical_eq_identicalRows a comp hc]
+  exact Gv.Proofs.BagIdentical.identicalRows_iff_perm _ _ (by rw [pairs_fst]; exact hna) (by rw [pairs_fst]; exact hnc)
+
+/-- on uniquely named containers the answer does not depend on which one is the receiver -/
+theorem identical_symm (a comp : Bag) (ha : Good a) (hc : Good comp) (hna : NamesNodup a) (hnc : NamesNodup comp) :
+    identical a comp = identical comp a := by
+  have h1 := identical_iff_same_records a comp hc hna hnc
+  have h2 := identical_iff_same_records comp a ha hnc hna
+  cases e1 : identical a comp <;> cases e2 : identical comp a <;> try rfl
+  · exact absurd ((h1.mpr (h2.mp e2).symm)) (by simp [e1])
+  · exact absurd ((h2.mpr (h1.mp e1).symm)) (by simp [e2])
+
+/-- a uniquely named container is identical to itself, and to each of its reorderings -/
+theorem identical_refl (a : Bag) (ha : Good a) (hna : NamesNodup a) : identical a a = true :=
+  (identical_iff_same_records a a ha hna hna).mpr (List.Perm.refl _)
+
+/-- the loop runs over the receiver only: when a name occurs twice in the receiver (caller-made renames) the two
+directions disagree; and upper / lower case are different bytes -/
+theorem identical_not_symmetric_with_repeated_names :
+    identicalRows [("x", [65]), ("x", [65])] [("x", [65]), ("y", [67])] = true ∧
+    identicalRows [("x", [65]), ("y", [67])] [("x", [65]), ("x", [65])] = false ∧
+    identicalRows [("x", [65])] [("x", [97])] = false ∧
+    identicalRows [("x", [65]), ("y", [67])] [("y", [67]), ("x", [65])] = true := by decide
 
 end Gv.Props.C01
